@@ -142,6 +142,7 @@ InitNode ==
     vr |-> 0,                                         \* vote rounds started so far
     hbr |-> 0,                                        \* heartbeatRound: replication rounds started so far
     cnt |-> <<>>,                                     \* round key <<kind, k>> -> responses counted (1 = the node itself)
+    pwon |-> 0,                                       \* (history) the term the prevote round that permitted the node's candidacy asked about
     park |-> FALSE,                                   \* an InstallSnapshot handler that kept the log waits to compact it
     spub |-> FALSE,                                   \* takeSnapshot has published its file but not taken the lock again
     xops |-> 0,                                       \* (history) ... of which client operations
@@ -216,15 +217,19 @@ HandleRV(s, m, sticky) ==
 
 \* the candidate's continuation after the RPC returns.  stay: after a prevote quorum the
 \* election loop finds the contact fresh and does not start the real election yet.
+\* the term a request was sent in: a prevote carries the term it asks about, one more (fix 94f63bc;
+\* before it the carried term was compared: weakening PrevoteStaleByCarriedTerm)
+SentTerm(m) == IF m.pre /\ "PrevoteStaleByCarriedTerm" \notin W THEN m.term - 1 ELSE m.term
+
 OnRVReply(s, n, m, r, stay) ==
-  IF s.term > m.term /\ "NoStaleVoteReplyCheck" \notin W THEN s
+  IF s.term > SentTerm(m) /\ "NoStaleVoteReplyCheck" \notin W THEN s
   ELSE
     LET s1 == IF r.ok THEN [s EXCEPT !.votes = s.votes + 1] ELSE s IN
     \* (weakening PrevoteReplyTermIgnored: a pre-candidate does not adopt the term of a rejection)
     IF r.term > m.term /\ ~("PrevoteReplyTermIgnored" \in W /\ m.pre) THEN BecomeFollower(s1, r.term, "rvr")
     ELSE
       LET s2 == IF Quorum(s1, s1.votes) /\ s1.role = "P"
-                  THEN (IF stay THEN [s1 EXCEPT !.role = "C"] ELSE BecomeCandidate(s1, n))
+                  THEN (IF stay THEN [s1 EXCEPT !.role = "C", !.pwon = m.term] ELSE [BecomeCandidate(s1, n) EXCEPT !.pwon = m.term])
                   ELSE s1 IN
       IF ~m.pre /\ Quorum(s2, s2.votes) /\ s2.role = "C" /\ s2.pre = FALSE /\ s2.term = m.term
         THEN BecomeLeader(s2, n) ELSE s2
@@ -468,6 +473,9 @@ Observe(n, old, new, el, c, vd, ak, v) ==
               \* C05: a linearizable read is served from a state that lacks an operation acknowledged
               \* before the read was invoked
               \cup (IF \E r \in Servable(new) : new.commit < r.must THEN {"StaleRead"} ELSE {})
+              \* C16 (mechanism): a pre-candidate turns candidate on more grants than voters it asked in this round
+              \cup (IF "rv" \notin AsyncKinds /\ old.role = "P" /\ new.role = "C" /\ ~new.pre /\ old.votes > Cardinality(old.asked) + 1
+                    THEN {"CandidateWithoutPrevoteMajority"} ELSE {})
               \* a read is served although no round from its own on was answered by voters that
               \* form a majority together with the leader (the mechanism behind C05; see Monitors.tla)
               \cup (IF "ae" \in AsyncKinds /\ "ReadNoQuorum" \notin W /\ \E r \in Servable(new) :
@@ -501,7 +509,8 @@ FireNode(s, n) ==
       \* election timed out goes back to the prevote (fix for S13; the weakening restores
       \* the former behaviour: term incremented again without a prevote)
       s1 == IF s.role = "C" /\ (s.pre \/ "CandidateNoPrevote" \in W) THEN BecomeCandidate(s, n)
-            ELSE [s EXCEPT !.role = "P", !.votes = 1, !.asked = {}, !.pre = TRUE]
+            \* (weakening PrevoteCountKept: a pre-candidate whose timer fires again keeps its count)
+            ELSE [s EXCEPT !.role = "P", !.votes = IF "PrevoteCountKept" \in W /\ s.role = "P" THEN s.votes ELSE 1, !.asked = {}, !.pre = TRUE]
       \* only voter: nobody to ask, leader at once -- through becomeCandidate (new term, own
       \* vote) since fix bc71823; the weakening restores the old shortcut
       s2 == IF ~SingleServer(s1, n) THEN s1
@@ -662,6 +671,8 @@ ClientSubmit(n, v) ==
   /\ s.role = "L"
   /\ LastIdx(s.log) < MaxLog
   /\ \A m \in Node : \A j \in 1..Len(ns[m].log.ents) : ns[m].log.ents[j].v # v     \* each payload submitted once
+  \* (behaviour generation: which of the unused payloads is submitted makes no difference)
+  /\ Gen => v = CHOOSE u \in Value : \A m \in Node : \A j \in 1..Len(ns[m].log.ents) : ns[m].log.ents[j].v # u
   /\ Spend("client")
   /\ LET s1 == [s EXCEPT !.log = AppendTo(s.log, <<Entry(s.term, "op", v)>>),
                          !.pend = [i \in DOMAIN s.pend \cup {LastIdx(s.log) + 1} |->
@@ -740,7 +751,8 @@ TimerFireA(n) ==
   /\ s.role \in {"F", "P", "C"} /\ IsVoter(s, n) /\ s.term < MaxTerm
   /\ Spend("timer")
   /\ LET s1 == IF s.role = "C" /\ (s.pre \/ "CandidateNoPrevote" \in W) THEN BecomeCandidate(s, n)
-               ELSE [s EXCEPT !.role = "P", !.votes = 1, !.asked = {}, !.pre = TRUE]
+               \* (weakening PrevoteCountKept: a pre-candidate whose timer fires again keeps its count)
+            ELSE [s EXCEPT !.role = "P", !.votes = IF "PrevoteCountKept" \in W /\ s.role = "P" THEN s.votes ELSE 1, !.asked = {}, !.pre = TRUE]
          r == VoteRound(s1, n) IN
      /\ ~SingleServer(s1, n)                \* single-voter clusters are covered at the synchronous grain
      /\ Cardinality(net) + Cardinality(r.ms) <= MaxNet
@@ -765,7 +777,7 @@ RVReply(m) ==
   /\ LET s == ns[m.to]
          n == m.to
          key == IF "SharedVoteCounter" \in W THEN <<"v", s.vr>> ELSE <<"v", m.round>> IN
-     IF s.term > m.req.term /\ "NoStaleVoteReplyCheck" \notin W THEN
+     IF s.term > SentTerm(m.req) /\ "NoStaleVoteReplyCheck" \notin W THEN
         /\ ns' = ns /\ net' = net \ {m} /\ UNCHANGED <<budget, elected, comm, voted, acked, viol>>
      ELSE
        LET c1 == Get(s.cnt, key, 1) + (IF m.reply.ok THEN 1 ELSE 0)
@@ -775,7 +787,7 @@ RVReply(m) ==
           /\ ns' = [ns EXCEPT ![n] = Fin(s, s2)] /\ net' = net \ {m} /\ Hist1(n, s2) /\ UNCHANGED budget
        ELSE IF Quorum(s1, c1) /\ s1.role = "P" THEN
           \* prevote won: candidate at once (Gen: the contact has lapsed), real round spawned
-          LET s2 == BecomeCandidate(s1, n)
+          LET s2 == [BecomeCandidate(s1, n) EXCEPT !.pwon = m.req.term]
               r == VoteRound(s2, n) IN
           /\ s2.term <= MaxTerm
           /\ Cardinality(net) - 1 + Cardinality(r.ms) <= MaxNet
@@ -897,12 +909,18 @@ NoViolation == viol = {}
 NoOpViolation == "StateMachineSafetyOp" \notin viol
 NoStaleRead == "StaleRead" \notin viol
 ReadsHeardMajority == "ReadWithoutMajority" \notin viol
+PrevoteMajority == "CandidateWithoutPrevoteMajority" \notin viol
+\* C16 (mechanism): a candidate of term t was permitted by a prevote round that asked about t
+PrevoteForThisTerm == \A n \in Node : ns[n].role = "C" /\ ~ns[n].pre /\ "CandidateNoPrevote" \notin W => ns[n].pwon = ns[n].term
 
 \* C05 (mechanism): a round's counter never exceeds the leader itself plus the distinct voters
 \* that answered it - a read is confirmed by a majority of DIFFERENT voters
 RoundQuorumDistinct ==
   \A n \in Node : \A key \in DOMAIN ns[n].cnt :
     key[1] = "h" => ns[n].cnt[key] <= 1 + Cardinality(Get(ns[n].rsp, key[2], {}))
+
+\* C16 / C02 (mechanism): in a vote round a node never counts more grants than it has asked voters
+VotesWithinAsked == \A n \in Node : ns[n].role \in {"P", "C"} /\ "rv" \notin AsyncKinds => ns[n].votes <= 1 + Cardinality(ns[n].asked)
 
 \* C10: a state machine restored from an installed snapshot holds exactly the operations up to the
 \* label it was installed under
